@@ -43,8 +43,8 @@ ASSUMPTIONS = [
     "range samplers with 1 sample and min < max cannot contain both end points: only v[0] = f(x[0]) and min <= x[0] <= max are judged",
     "sampler ranges and periodic arguments are bounded by 1e100 / 1e30 in magnitude",
 ]
-QUICK = dict(cases=2600, workers=2, timecap=45)
-THOROUGH = dict(cases=260000, workers=16, timecap=600)
+QUICK = dict(cases=6000, workers=2, timecap=45)
+THOROUGH = dict(cases=400000, workers=16, timecap=600)
 REQUIRED = {"received_exact": 5000, "received_computed": 1000, "value_exact": 5000, "vector_rotation": 500,
             "periodic_membership": 2000, "periodic_congruence": 2000, "mask_points": 1000,
             "sampler_entries": 5000, "sampler_grid": 1000}
@@ -355,7 +355,12 @@ def certify_simple(verts):
 
 def _poly_shape(rng):
     """unit-scale simple polygon candidates (certified later); returns (kind, vertices)"""
-    k = int(rng.integers(6))
+    k = int(rng.integers(7))
+    if k == 6:                                   # rectangle on a decimal lattice (typical R-Z mask sampled on a regular grid)
+        h = [0.1, 0.01, 0.05, 0.2, 0.25][int(rng.integers(5))]
+        W, H = int(rng.integers(2, 15)), int(rng.integers(2, 15))
+        x0, y0 = int(rng.integers(-10, 10)), int(rng.integers(-10, 10))
+        return "decimal-rect:%g" % h, [[x0 * h, y0 * h], [(x0 + W) * h, y0 * h], [(x0 + W) * h, (y0 + H) * h], [x0 * h, (y0 + H) * h]]
     if k == 0:                                   # convex: points on an ellipse sorted by angle
         n = int(rng.integers(3, 41))
         th = np.sort(rng.uniform(0, 2 * math.pi, size=n))
@@ -394,7 +399,7 @@ def _gen_polygon(rng):
     for _ in range(50):
         kind, v = _poly_shape(rng)
         v = np.array(v, dtype=float)
-        lattice = kind in ("comb", "staircase") and rng.random() < 0.5
+        lattice = (kind in ("comb", "staircase") and rng.random() < 0.5) or kind.startswith("decimal-rect")
         if not lattice:
             ang = rng.uniform(0, 2 * math.pi)
             sh = rng.uniform(-0.5, 0.5) if rng.random() < 0.5 else 0.0
@@ -408,6 +413,8 @@ def _gen_polygon(rng):
         v = np.roll(v, int(rng.integers(len(v))), axis=0)
         verts = [[float(a), float(b)] for a, b in v]
         if certify_simple(verts) is not None:
+            if kind.startswith("decimal-rect"):
+                return "decimal-rect", float(kind.split(":")[1]), verts
             return kind + ("-lattice" if lattice else ""), lattice, verts
     return "square", True, [[0.0, 0.0], [1.0, 0.0], [1.0, 1.0], [0.0, 1.0]]
 
@@ -418,9 +425,23 @@ def _mask_queries(rng, verts, lattice, n):
     size = float(np.hypot(*(hi - lo)))
     pts = []
     nv = len(v)
+    if lattice is not True and lattice is not False:
+        # nodes of the decimal lattice (step h) the rectangle was built on, plus a margin of 2 nodes
+        h = float(lattice)
+        i0, i1 = int(round(lo[0] / h)), int(round(hi[0] / h))
+        j0, j1 = int(round(lo[1] / h)), int(round(hi[1] / h))
+        for _ in range(n):
+            pts.append([int(rng.integers(i0 - 2, i1 + 3)) * h, int(rng.integers(j0 - 2, j1 + 3)) * h])
+        return pts
     for _ in range(n):
-        k = int(rng.integers(6))
-        if lattice and k <= 2:
+        k = int(rng.integers(7))
+        if k == 6 and nv >= 4:
+            # on the chord between two non-adjacent vertices: a potential internal diagonal of the triangulation
+            i = int(rng.integers(nv))
+            j = (i + int(rng.integers(2, nv - 1))) % nv
+            t = float(rng.uniform(0.02, 0.98))
+            q = [float(v[i][0] + t * (v[j][0] - v[i][0])), float(v[i][1] + t * (v[j][1] - v[i][1]))]
+        elif lattice and k <= 2:
             # quarter-lattice points: may fall on internal triangulation diagonals, never on polygon edges of a lattice polygon
             # when the coordinates are odd multiples of 1/4
             q = [float(math.floor(rng.uniform(lo[0] - 1, hi[0] + 1)) + [0.25, 0.5, 0.75][int(rng.integers(3))]),
@@ -570,8 +591,9 @@ def _gen_named(rng, name):
     elif name in POINT_SAMPLERS:
         nd = SAMPLER_ND[name]
         case["f"] = _coefs(rng, nd, name.startswith("samplevector"))
-        case["points"], _ = _points(rng, nd, int(rng.integers(1, 41)))
         case["container"] = ["list", "array", "strided", "fortran", "float32"][int(rng.integers(5))]
+        # float32 input arrays: keep the values finite after the cast (|x| < 3.4e38)
+        case["points"], _ = _points(rng, nd, int(rng.integers(1, 41)), 30.0 if case["container"] == "float32" else 100.0)
     elif name in GRID_SAMPLERS:
         nd = SAMPLER_ND[name]
         case["f"] = _coefs(rng, nd, name.startswith("samplevector"))
@@ -658,6 +680,9 @@ def fixed_cases(tier):
     out.append({"w": "PolygonMask2D", "poly_kind": "U", "vertices": U, "container": "list", "pts": qU})
     col = [[0.0, 0.0], [1.0, 0.0], [2.0, 0.0], [2.0, 2.0], [1.0, 2.0], [0.0, 2.0]]
     out.append({"w": "PolygonMask2D", "poly_kind": "collinear-vertices", "vertices": col, "container": "list", "pts": q})
+    rect = [[-0.2, 0.4], [2.6, 0.4], [2.6, 1.8], [-0.2, 1.8]]
+    out.append({"w": "PolygonMask2D", "poly_kind": "decimal-rect", "vertices": rect, "container": "list",
+                "pts": [[1.0, 1.0], [2.2, 1.6], [0.4, 0.7], [1.2, 1.1], [0.0, 0.5], [2.4, 1.7], [3.0, 1.0], [1.0, 0.2]]})
     tri = [[0.0, 0.0], [4.0, 0.0], [0.0, 3.0]]
     out.append({"w": "PolygonMask2D", "poly_kind": "triangle", "vertices": tri, "container": "list",
                 "pts": [[1.0, 1.0], [3.0, 1.0], [0.5, 2.5], [2.0, 1.4], [2.0, 1.6], [-0.1, 1.0], [1.0, -0.1]]})
@@ -673,7 +698,7 @@ def fixed_cases(tier):
     out.append({"w": "samplevector2d", "f": v2, "ranges": [[0.0, 1.0, 2], [-5.0, 5.0, 5]]})
     out.append({"w": "samplevector3d", "f": v3, "ranges": [[1, 2, 2], [1, 3, 3], [1, 3, 3]]})
     out.append({"w": "samplevector3d", "f": v3, "ranges": [[0.0, 1.0, 4], [-1.0, 1.0, 1], [2.0, 3.0, 3]]})
-    pt3 = [[1.0, 2.0, 3.0], [-1.0, 0.0, 1e100], [0.5, -0.0, 1e-150], [2.0, 2.0, 2.0]]
+    pt3 = [[1.0, 2.0, 3.0], [-1.0, 0.0, 1e30], [0.5, -0.0, 1e-150], [2.0, 2.0, 2.0]]      # finite also as float32
     for cont in ("list", "array", "strided", "fortran", "float32"):
         out.append({"w": "sample1d_points", "f": f1, "points": [p[:1] for p in pt3], "container": cont})
         out.append({"w": "sample2d_points", "f": f2, "points": [p[:2] for p in pt3], "container": cont})
@@ -1031,6 +1056,20 @@ def _dist_to_edges(verts, q):
     return best
 
 
+def _dist_to_chords(verts, q):
+    """distance from q to the nearest segment joining two non-adjacent vertices (candidates for internal diagonals)"""
+    best = math.inf
+    n = len(verts)
+    for i in range(n):
+        for j in range(i + 2, n):
+            if i == 0 and j == n - 1:
+                continue
+            d = _dist_to_edges([verts[i], verts[j]], q)
+            if d < best:
+                best = d
+    return best
+
+
 def _run_mask(case, ctx):
     cm = _mod(ctx)
     verts = [[float(a), float(b)] for a, b in case["vertices"]]
@@ -1062,9 +1101,17 @@ def _run_mask(case, ctx):
         ctx.mon("mask_points")
         ctx.cls("mask:" + ("inside" if want else "outside"))
         if not (got == float(want)):
-            ctx.viol("PolygonMask2D:%s-point-reported-%s" % ("inside" if want else "outside", "outside" if want else "inside"),
-                     "PolygonMask2D differs from exact point-in-polygon", q=q, got=got, want=want, orientation=orient,
-                     poly_kind=case.get("poly_kind"), n_vertices=len(verts))
+            key = "PolygonMask2D:%s-point-reported-%s" % ("inside" if want else "outside", "outside" if want else "inside")
+            what = "PolygonMask2D differs from exact point-in-polygon"
+            chord = _dist_to_chords(verts, q)
+            if want == 1 and got == 0.0 and chord <= 1e-11 * (size + max(abs(t) for t in xs + ys)):
+                # mechanism: the point lies (to rounding) on a segment joining two polygon vertices, i.e. on a possible
+                # internal edge of the triangulation, where both adjacent triangles of the mesh reject it
+                key = "PolygonMask2D:interior-point-on-triangulation-diagonal-reported-outside"
+                what = ("interior point lying within rounding distance of a vertex-to-vertex chord (internal triangulation edge) "
+                        "is reported outside: the triangle mesh behind the mask is not watertight on shared edges")
+            ctx.viol(key, what, q=q, got=got, want=want, orientation=orient, poly_kind=case.get("poly_kind"),
+                     n_vertices=len(verts), dist_to_polygon_edges=_dist_to_edges(verts, q), dist_to_nearest_chord=chord)
 
 
 # ---- samplers ---------------------------------------------------------------------------------
@@ -1110,7 +1157,7 @@ def _run_sampler(case, ctx):
                       got=[float(g[0]), float(g[-1])], want=[fa, fb], n=n)
             Fa, Fb = Fraction(fa), Fraction(fb)
             scale = max(abs(fa), abs(fb))
-            tol = ULPS * math.ulp(scale) + TINY
+            tol = 4 * ULPS * math.ulp(scale) + TINY      # numpy: start + i*step, step rounded once: ~2 ulp of the scale
             worst = 0.0
             for i in range(n):
                 want = Fa + (Fb - Fa) * i / (n - 1)
